@@ -434,7 +434,7 @@ func buildReplay(w *World, vc *VC, prelude, dir string, testName string) (*overl
 		fmt.Fprintf(&b, "\t\tfmt.Printf(\"VERIF-RESULT %s pass returned-normally\\n\")\n", testName)
 		return &overlayTest{Name: testName, Body: b.String()}, args, ""
 	}
-	if !strings.HasPrefix(vc.Kind, "ensures") {
+	if !strings.HasPrefix(vc.Kind, "ensures") && !strings.HasPrefix(vc.Kind, "expect") {
 		return nil, args, "no replay form for obligation kind " + vc.Kind
 	}
 	// find the clause function
